@@ -26,6 +26,8 @@ def run(tier, seed):
             for tr in (True, False):
                 cases.append(Case('stateful_n%d_t%d_b%d_%d' % (n, t, bad, tr), 'crypto', 'zzC06_stateful', [n, t, full, bad, tr]))
         cases.append(Case('stateful_n%d_t%d_few' % (n, t), 'crypto', 'zzC06_stateful', [n, t, (1 << t) - 1, 0, True]))
+    for n, t in ([(3, 1), (4, 2)] + ([(5, 2), (5, 3)] if thorough else [])):
+        cases.append(Case('stateful_mixed_n%d_t%d' % (n, t), 'crypto', 'zzC06_stateful_mixed', [n, t]))
     FC = {'formal_coeffs': True}
     # Lagrange limb batching: 9 and 17 signers cross the 8-indices-per-limb boundaries
     cases.append(Case('stateless_9signers', 'crypto', 'zzC06_stateless', [10, 8, (1 << 9) - 1, 0], opts=FC))
